@@ -42,11 +42,13 @@ from harness import strlit
 PROP = 'C10'
 
 TIERS = {
-    'quick': dict(n=3, pipe_full=2, pipe_allforms=1, pipe_sample=250,
-                  pipe_batch=40, sql_extra=24, sql_batch=50,
+    'quick': dict(n=3, pipe_full=2, pipe_nested_full=2, pipe_allforms=1,
+                  pipe_sample=150,
+                  pipe_batch=40, sql_extra=14, sql_batch=50,
                   flag_cfgs=['FlagsQ1', 'FlagsQ2'], flag_model_only=[],
-                  flag_sim=None, grow_sample=24, flag_pipe=120),
-    'thorough': dict(n=4, pipe_full=3, pipe_allforms=2, pipe_sample=3000,
+                  flag_sim=None, grow_sample=16, flag_pipe=80),
+    'thorough': dict(n=4, pipe_full=3, pipe_nested_full=2, pipe_allforms=2,
+                     pipe_sample=2000,
                      pipe_batch=40, sql_extra=380, sql_batch=50,
                      flag_cfgs=['FlagsT1', 'FlagsT2'],
                      flag_model_only=['FlagsT3'],
@@ -68,7 +70,11 @@ RULE = (
     'FlagsSem!Allowed - acyclic configuration: exactly the full expansion with '
     'the user value overriding the default; cyclic configuration: a '
     'diagnostic (RuleCompileException) or a text on which nothing is left to '
-    'expand; never memory/time exhaustion.')
+    'expand; never memory/time exhaustion.  distinct_nontrivial = number of '
+    'enumerated strings containing at least one character other than "a" and '
+    'space, plus the number of distinct flag configurations exported by TLC; '
+    'evaluations = texts emitted by QL.ConvertToSql that TLC lexed + pipeline '
+    'results + compiled statements + flag outcomes.')
 
 
 def _Log(msg):
@@ -97,12 +103,19 @@ def _Selections(cfg):
 
 
 def _PipeTasks(cfg, full, sample):
+  """All literal forms for the shortest strings; the primary form (and the
+  triple-quoted one for a fifth of the strings) for the rest.  The nested
+  context is exhaustive up to cfg['pipe_nested_full'] and sampled beyond."""
   tasks = []
   allf = [s for s in full if len(s) <= cfg['pipe_allforms']]
   tasks += strlit.PipeTasks(allf, cfg['pipe_batch'])
   rest = [s for s in full if len(s) > cfg['pipe_allforms']] + sample
+  in_sample = set(sample)
 
   def Primary(s, pos, ctx):
+    if (ctx == 'nested' and len(s) > cfg['pipe_nested_full']
+        and s not in in_sample):
+      return []
     return ['argv', strlit.PrimaryForm(s)] + (
         ['tq'] if strlit.ShardOf(s, 5) == 0 else [])
   tasks += strlit.PipeTasks(rest, cfg['pipe_batch'], forms_for=Primary)
@@ -128,21 +141,21 @@ def _IndentOnly(got, exp):
 
 def _StringSignatures(rec, verdict):
   """-> list of (signature, human text)."""
-  s = strlit.Txt(rec['s']) if rec['k'] == 'unit' else rec['_key']
+  s = rec['s'] if rec['k'] == 'unit' else rec['_key']
   out = []
   if rec['k'] == 'unit':
     for b in verdict['bad']:
       out.append(({'k': 'unit', 'd': b['d'], 'backslash': '\\' in s},
                   'unit %s via=%s: %s; s=%r emitted=%r' % (
                       b['d'], b['via'], b['why'], s,
-                      strlit.Txt(rec[b['via']][b['d']]))))
+                      rec[b['via']][b['d']])))
     return out
   why = list(verdict['bad'])[0]['why']
   sig = {'k': rec['k'], 'why': why}
   detail = rec.get('detail', '')
   if why == 'value-differs':
     exp = ('a' + s + 'a') if rec['pos'] == 'concat' else s
-    sig['indent_only'] = _IndentOnly(strlit.Txt(rec['got']), exp)
+    sig['indent_only'] = _IndentOnly(rec['got'], exp)
   if why.startswith('status-reject') or why.startswith('param-form'):
     sig['dollar_brace'] = '${' in s
     sig['params_undefined'] = ('Parameters' in detail and
@@ -158,12 +171,12 @@ def _StringSignatures(rec, verdict):
       sig['raw_newline_in_literal'] = '\n' in emitted
       # The statement is the reference statement with the emitted literal in
       # place of the marker, up to blanks inserted after newlines.
-      ref = strlit.Txt(rec['ref'])
+      ref = rec['ref']
       want = ref[:rec['at'] - 1] + emitted + ref[rec['at'] - 1 + rec['len']:]
-      sig['indent_only'] = _IndentOnly(strlit.Txt(rec['sql']), want)
+      sig['indent_only'] = _IndentOnly(rec['sql'], want)
   text = '%s %s/%s/%s: %s; s=%r got=%r %s' % (
       rec['k'], rec.get('d', 'sqlite'), rec['pos'], rec['ctx'], why, s,
-      strlit.Txt(rec.get('got', []))[:80], detail[:160])
+      rec.get('got', '')[:80], detail[:160])
   return [(sig, text)]
 
 
@@ -201,9 +214,17 @@ def _ModelRuns(cfg, pool):
   return futs
 
 
+# Development aid only (never a registered command): C10_SMOKE=1 shrinks the
+# run to seconds of work; the evidence file says so.
+SMOKE = dict(n=2, pipe_full=1, pipe_nested_full=1, pipe_allforms=1,
+             pipe_sample=40, pipe_batch=40, sql_extra=4, sql_batch=50,
+             flag_cfgs=['FlagsQ2'], flag_model_only=[], flag_sim=None,
+             grow_sample=4, flag_pipe=12)
+
+
 def Run(tier):
   clock = common.Clock()
-  cfg = TIERS[tier]
+  cfg = SMOKE if os.environ.get('C10_SMOKE') else TIERS[tier]
   klass = findings.Classifier(PROP)
   machinery = []
   violations = []        # (signature, text, replay payload)
@@ -346,7 +367,9 @@ def Run(tier):
       continue
     nviol += 1
     payload['text'] = text
-    path = common.WriteReplay(PROP, 'c10_%s_%03d' % (tier, nviol), payload)
+    path = common.WriteReplay(PROP, 'c10_%s_%s%03d' % (
+        tier, '' if common.REPO == '/repo' else common.Sha(common.REPO)[:6] + '_',
+        nviol), payload)
     print('  ' + text[:400], flush=True)
     common.Violation(PROP, path)
   for m in machinery:
@@ -364,12 +387,16 @@ def Run(tier):
       'evaluations': len(unit) * 16 + len(pipe) + len(sql) + len(frecs),
       'distinct_nontrivial': nontrivial + len(cases),
       'rule': RULE,
+      'exhaustive': False,
+      'smoke_run': bool(os.environ.get('C10_SMOKE')),
+      'explanation': 'unit level and lemmas exhaustive up to N; pipeline '
+                     'exhaustive up to pipeline_sqlite.exhaustive_up_to_len, '
+                     'sampled beyond; flag configurations exhaustive per cfg '
+                     'except those predicted to grow (sampled)',
       'samples': [
-          {'unit': {'s': strlit.Txt(unit[len(unit) // 3]['s']),
-                    'emitted': {d: strlit.Txt(t) for d, t in
-                                unit[len(unit) // 3]['lit'].items()}}},
-          {'pipe': {a: (strlit.Txt(b) if a in ('lit', 'got') else b)
-                    for a, b in pipe[len(pipe) // 2].items()
+          {'unit': {'s': unit[len(unit) // 3]['s'],
+                    'emitted': dict(unit[len(unit) // 3]['lit'])}},
+          {'pipe': {a: b for a, b in pipe[len(pipe) // 2].items()
                     if a in ('pos', 'ctx', 'form', 'lit', 'status', 'got')}},
           {'flags': {'text': flagscheck.Mat(frecs[0]['text']),
                      'def': {f: flagscheck.Mat(v['v']) if v['has'] else None
@@ -443,7 +470,7 @@ def Replay(path):
            if r['id'] in bad]
   else:
     rec = p['record']
-    s = strlit.Txt(rec['s']) if kind == 'unit' else rec['_key']
+    s = rec['s'] if kind == 'unit' else rec['_key']
     if kind == 'unit':
       recs = strlit._UnitChunk([s])
     elif kind == 'pipe':
